@@ -81,6 +81,18 @@ def handle : List String → String
           | _ => none) with
       | some l => "spec:" ++ showInts (specMergeNested (l.map (·.2))) ++ " sf:" ++ showInts (sfMergeNested l)
       | none => "bad-op"
+  | "empty" :: m :: sizes =>
+      match sizes.mapM (fun (x : String) => x.toNat?) with
+      | some ns =>
+          if m == "nested" then
+            match (emptyScatterNested ns : Option (List (List Nat))) with
+            | some r => "sf:" ++ showRows r
+            | none => "sf:run"
+          else
+            match (emptyScatterFlat ns : Option (List Nat)) with
+            | some r => "sf:" ++ showInts r
+            | none => "sf:run"
+      | none => "bad-op"
   | ["when", c, a] =>
       match parseInts a with
       | some outs =>
